@@ -100,3 +100,37 @@ Theorem C02_src_greedy_slots : forall (G P : Type) (dG : G) (dP : P) (g2p : G ->
   ea_calls G P self' = (ea_calls G P self + Z.of_nat (length batch))%Z.
 Proof. exact src_greedy_slots. Qed.
 Print Assumptions C02_src_greedy_slots.
+
+(* ------------------------------------------------------------------------------------------------
+   THE ADAPTIVE MEMBERS OF THE GREEDY FAMILY.  SHADE, jDE and SHAGA override _get_new_population; their overrides are translated on
+   every run as functions on (base record, own state) with the random parts as oracles (gen/GenLoop.v).  On the base record each of
+   them IS DifferentialEvolution's greedy step with its own trial vectors (theories/CodeEqAdaptStep.v), hence: after the step every
+   slot holds its own trial iff trial >= parent, else its parent, and exactly the trials were counted as fitness calls. *)
+From TF Require Import CodeEqAdaptStep.
+
+Theorem C02_code_shade_greedy : forall (G P : Type) (dG : G) (dP : P) (g2p : G -> P) (f : P -> Q) par_value
+    sh_trials sh_generate sh_append (self : SHADE G P) (st : state G P),
+  sim G P dG dP (sh_ea G P self) st -> (ea_n_jobs G P (sh_ea G P self) <= 1)%Z ->
+  let batch := map (eval G P g2p (nf_of G P f (sh_ea G P self))) (sh_trials (sh_pre G P sh_generate self)) in
+  sh_ea G P (sh_new G P g2p f par_value sh_trials sh_generate sh_append self)
+  = with_pop G P (sh_ea G P self) (greedy G P batch (pop st)) (Z.of_nat (length batch)).
+Proof. exact code_shade_greedy. Qed.
+Print Assumptions C02_code_shade_greedy.
+
+Theorem C02_code_jde_greedy : forall (G P : Type) (dG : G) (dP : P) (g2p : G -> P) (f : P -> Q) par_value
+    jd_trials jd_mutate_F jd_mutate_CR (self : jDE G P) (st : state G P),
+  sim G P dG dP (jd_ea G P self) st -> (ea_n_jobs G P (jd_ea G P self) <= 1)%Z ->
+  let batch := map (eval G P g2p (nf_of G P f (jd_ea G P self))) (jd_trials self (jd_mutate_F self) (jd_mutate_CR self)) in
+  jd_ea G P (jd_new G P g2p f par_value jd_trials jd_mutate_F jd_mutate_CR self)
+  = with_pop G P (jd_ea G P self) (greedy G P batch (pop st)) (Z.of_nat (length batch)).
+Proof. exact code_jde_greedy. Qed.
+Print Assumptions C02_code_jde_greedy.
+
+Theorem C02_code_shaga_greedy : forall (G P : Type) (dG : G) (dP : P) (g2p : G -> P) (f : P -> Q) par_value
+    sg_trials sg_generate (self : SHAGA G P) (st : state G P),
+  sim G P dG dP (sg_ea G P self) st -> (ea_n_jobs G P (sg_ea G P self) <= 1)%Z ->
+  let batch := map (eval G P g2p (nf_of G P f (sg_ea G P self))) (sg_trials (sg_pre G P sg_generate self)) in
+  sg_ea G P (sg_new G P g2p f par_value sg_trials sg_generate self)
+  = with_pop G P (sg_ea G P self) (greedy G P batch (pop st)) (Z.of_nat (length batch)).
+Proof. exact code_shaga_greedy. Qed.
+Print Assumptions C02_code_shaga_greedy.
